@@ -173,7 +173,7 @@ def check(ctx):
            "var_inflate = compute_inflate(baseline votes of the group's calibration units)" if ok_inf else f"var_inflate = {ir.show(d.get('var_inflate'), maxdepth=3)}")
     for side in ("lower", "upper"):
         mu = d.get(f"mu_{side}_bound")
-        vals = ("attr", ("attr", G, f"{side}_bounds"), "values")
+        vals = ("attr", ("sub", G, ("const", f"{side}_bounds")), "values")
         okm = (mu is not None and mu[0] == "call" and mu[1] == ("global", f"{MU}:weighted_median") and mu[2][0] == vals
                and ir.show(mu[2][1], maxdepth=8).replace(" ", "") == ir.show(("attr", ("bin", "/", last, ("call", ("global", "numpy.sum"), (last,), ())), "values"), maxdepth=8).replace(" ", ""))
         ctx.ob("C15.R4.centre", f"{ff.qualname}|mu_{side} = baseline-weighted median of the {side} scores", okm, ff.where(),
@@ -206,15 +206,16 @@ def check(ctx):
     def gleaf(x):
         if x[0] == "param":
             return x[1]
-        if x[0] == "attr" and x[2] in ("var_inflate",) + tuple(f"{p_}_{s_}_bound" for p_ in ("mu", "sigma") for s_ in ("lower", "upper")):
-            return x[2]
+        cr_ = ir.column_ref(x)
+        if cr_ is not None and cr_[1] in ("var_inflate",) + tuple(f"{p_}_{s_}_bound" for p_ in ("mu", "sigma") for s_ in ("lower", "upper")):
+            return cr_[1]
         return None
 
     Ng = symexpr.Normalizer(leaf=gleaf)
     nfound = 0
     for side in ("lower", "upper"):
         cands = [t for pc, name, t, n in us.assigns
-                 if any(x[0] == "attr" and x[2] == f"mu_{side}_bound" for x in ir.walk(t))
+                 if any(ir.column_ref(x) is not None and ir.column_ref(x)[1] == f"mu_{side}_bound" for x in ir.walk(t))
                  and any(x[0] == "call" and ir.show(x[1]).endswith("ppf") for x in ir.walk(t))]
         if not cands:
             continue
@@ -412,7 +413,7 @@ def check(ctx):
                 okslice = last_i is not None and last_i[0] == "sub" and last_i[1] == AGG and slice_is(last_i[2], "n - i", None)
                 mask = src[2] if src[0] == "sub" else None
                 okmask = (src[0] == "sub" and src[1] == GM and mask[0] == "call" and mask[1][0] == "attr" and mask[1][2] == "all" and _kw(mask, "axis") == ("const", 1)
-                          and mask[1][1][0] == "call" and ir.show(mask[1][1][1]).endswith("isnull") and mask[1][1][2][0] == ("sub", GM, last_i))
+                          and mask[1][1] == ("call", ("attr", ("sub", GM, last_i), "isnull"), (), ()))
                 okrm = okslice and okmask
             ctx.ob("C15.R3.remaining-models", f"{af.qualname}|remaining models = rows null at the last i key levels", okrm, af.where(),
                    "models considered at step i are those fitted one or more levels up (last i keys null), with those keys dropped" if okrm
